@@ -43,6 +43,11 @@ def run (H : List α → δ) (L : Nat) (files : List (List α))
     (arrival : List (Nat × List α)) : Outcome δ :=
   finish (torrentPieces (files.map List.length).sum L) (collectorHashes (arrival.map (hashTask H)))
 
+/-- the arrival order of the digests, as `(index, piece)` tasks, for the order `c` in which the
+    collector received the piece indexes (a result of the pipeline model) -/
+def arrivalOf (tasks : List (Nat × List α)) (c : List Nat) : List (Nat × List α) :=
+  c.filterMap fun i => tasks[i]?
+
 /-- the sequential run: results arrive in reading order -/
 def seq (H : List α → δ) (L : Nat) (files : List (List α)) : Outcome δ :=
   run H L files (readerTasks L files)
